@@ -95,6 +95,8 @@ def pointwise_constants(tier):
         "BoundVarPool": "{<<1, 1>>, <<2, 1>>, <<8, 1>>, <<1, 2>>, <<15, 1>>, <<3, 5>>, <<12, 5>>}",
         "BoundAs": "{<<-1, 1>>, <<-7, 2>>}",
         "BoundBs": "{<<7, 1>>, <<9, 2>>}",
+        "FitLams": "{<<-1, 2>>, <<0, 1>>, <<1, 2>>, <<2, 1>>, <<1, 1>>}",
+        "FitShifts": "{<<0, 1>>, <<1, 2>>, <<1, 1>>}",
     }
     return c
 
@@ -116,6 +118,7 @@ PW_SECTIONS = {
     "NormExact": ["ExactStrictlyIncreasing", "ExactRoundTrip", "ExactDerivativePositive"],
     "Llf": ["LlfCountsValidOnly"],
     "Bounds": ["BoundsHonoured"],
+    "Fit": ["FitPartition"],
     "Range": ["ImageIsValid"],
     "Fix": ["FixInsideRanges"],
     "Force": ["ForceMomentsExact"],
@@ -488,6 +491,87 @@ def replay_llf(col, states):
                         "classes": c["cls"], "valid_entries": valid.tolist()}, cap=1)
 
 
+FIT_DATA = {
+    "positive": np.array([3.0, 4.0, 4.5, 5.0, 6.0, 6.5, 8.0, 9.0, 12.0, 5.5, 7.0, 3.5]),
+    "skewed": np.array([0.5, 1.0, 1.5, 2.0, 3.0, 4.0, 6.0, 8.0, 2.5, 0.75, 1.25, 5.0]),
+    "both-signs": np.array([-2.5, -1.0, -0.5, 0.25, 0.5, 1.0, 1.5, 2.0, 3.0, 4.5, -0.25, 0.75]),
+}
+
+
+def _same(a, b):
+    """bit-wise equality of two parameter values (NaN equals NaN)"""
+    a, b = float(a), float(b)
+    return a == b or (a != a and b != b)
+
+
+def replay_fit(col, states):
+    """Normalizer.fit: the split into fitted / frozen parameters is TLC's; frozen parameters keep
+    their bits, the returned dict names every parameter, nothing to fit = no-op, and a converged
+    fit does not lower the log-likelihood of the start parameters (relations between outputs)."""
+    import gstools.normalizer as gn
+
+    for st in states:
+        c = st["c"]
+        l0, s0 = _f(c["lam0"]), _f(c["shift0"])
+        names, fitted, frozen, skip = list(c["names"]), list(c["fitted"]), set(c["frozen"]), sorted(c["skip"])
+        for dname, data in FIT_DATA.items():
+            if dname == "both-signs" and c["norm"] in ("LogNormal", "BoxCox", "BoxCoxShift"):
+                continue
+            nrm = make_norm(c["norm"], l0, s0)
+            start = {n: float(getattr(nrm, n)) for n in names}
+            rp = {"section": "fit", "case": c, "data": dname}
+            sig = "fit:%s:skip=%s" % (c["norm"], "+".join(skip) or "none")
+            col.evals += 1
+            kw = {}
+            if len(fitted) == 1:   # Brent starts at the start value: its result cannot be worse
+                kw = dict(bracket=(start[fitted[0]], start[fitted[0]] + 1.0))
+            with warnings.catch_warnings():
+                warnings.simplefilter("ignore")
+                with np.errstate(all="ignore"):
+                    llf0 = float(nrm.loglikelihood(data.copy()))
+                    try:
+                        ret = nrm.fit(data.copy(), skip=list(skip), **kw)
+                    except Exception as e:  # noqa: BLE001
+                        col.violation(sig + ":exception", "%r.fit(%s data, skip=%s) raised %r" % (nrm, dname, skip, e), rp)
+                        continue
+                    llf1 = float(nrm.loglikelihood(data.copy()))
+            what = "%s(%s).fit(%s data, skip=%s)" % (c["norm"], ", ".join("%s=%r" % i for i in start.items()), dname, skip)
+            for n in sorted(frozen):
+                if not _same(getattr(nrm, n), start[n]):
+                    col.violation(sig + ":skipped-parameter-changed",
+                                  "%s: the skipped parameter %s changed from %r to %r" % (what, n, start[n], float(getattr(nrm, n))), rp)
+            if c["noop"]:
+                if ret != {} or any(not _same(getattr(nrm, n), start[n]) for n in names):
+                    col.violation(sig + ":noop", "%s: nothing to fit, but it returned %r / parameters now %s"
+                                  % (what, ret, {n: float(getattr(nrm, n)) for n in names}), rp)
+                continue
+            if sorted(ret) != sorted(names) or any(not _same(ret[n], getattr(nrm, n)) for n in names):
+                col.violation(sig + ":returned-values", "%s returned %r but the parameters are %s"
+                              % (what, ret, {n: float(getattr(nrm, n)) for n in names}), rp)
+            ok = bool(getattr(getattr(nrm, "_opti", None), "success", False)) and math.isfinite(llf1)
+            if not ok:
+                col.note("fit-not-converged:%s:skip=%s" % (c["norm"], "+".join(skip) or "none"))
+            elif llf1 < llf0 - 1e-9 * max(1.0, abs(llf0)):
+                col.violation(sig + ":loglikelihood-decreased",
+                              "%s: converged to %s with log-likelihood %r, below %r at the start parameters"
+                              % (what, {n: float(getattr(nrm, n)) for n in names}, llf1, llf0), rp)
+            if c["norm"] == "BoxCoxShift" and fitted == ["lmbda"]:
+                # with the shift frozen the objective is the Box-Cox one of the shifted data
+                ref = gn.BoxCox(lmbda=l0)
+                with warnings.catch_warnings():
+                    warnings.simplefilter("ignore")
+                    ref.fit(data + s0, **kw)
+                if abs(float(ref.lmbda) - float(nrm.lmbda)) > 1e-6 * max(1.0, abs(float(ref.lmbda))):
+                    col.violation(sig + ":differs-from-BoxCox-on-shifted-data",
+                                  "%s gives lmbda = %r, BoxCox(lmbda=%r).fit(data + %r) gives %r"
+                                  % (what, float(nrm.lmbda), l0, s0, float(ref.lmbda)), rp)
+            col.nontrivial.add(("fit", c["norm"], tuple(skip), tuple(c["lam0"]), tuple(c["shift0"]), dname))
+        col.traces += 1
+        if c["norm"] == "BoxCoxShift" and skip == ["lmbda"] and l0 == -0.5:
+            col.sample({"section": "fit", "normalizer": c["norm"], "start": {"lmbda": l0, "shift": s0}, "skip": skip,
+                        "fitted": fitted, "frozen": sorted(frozen)}, cap=1)
+
+
 def replay_bounds(col, states):
     """uniform / arcsine / U-quadratic: a given bound is the bound, a missing one takes its default;
     the normal quantiles 0, 1/2, 1 map to lo, (lo + hi)/2, hi"""
@@ -671,31 +755,61 @@ def replay_force(col, states):
                         "exact_result": ["%d/%d" % tuple(q) for q in c["out"]]}, cap=1)
 
 
-def relation_boxcox(col, range_states):
-    """Box-Cox transform inverts the BoxCox normalizer: relation on the valid lattice points
-    (lmbda = 0 is the log-normal transformation)."""
+def relation_boxcox(col, range_states, fix_states):
+    """Box-Cox transform inverts the Box-Cox normalizers.  array_boxcox(f, lmbda, shift) shifts the
+    field by `shift` "before transformation", i.e. it is BoxCox(lmbda).denormalize(f + shift);
+    BoxCoxShift(lmbda, t) adds t to the data first.  Hence for every valid x
+        array_boxcox(BoxCoxShift(lmbda, t).normalize(x) - s, lmbda, shift=s) = x + t
+    for every s, through the array function and Field.transform("boxcox") (relation on the
+    TLC-classified valid points; exact at TLC's reference points x0 |-> 0, also for lmbda = 0)."""
+    import gstools as gs
+    from gstools.field import Field
     from gstools.transform import array_boxcox
 
-    seen = set()
+    groups = {}
     for st in range_states:
         c = st["c"]
-        if c["norm"] != "BoxCox" or c["dir"] != "normalize" or c["cls"] != "Valid":
-            continue
-        lam = _f(c["lam"])
-        x = _f(c["v"])
-        nrm = make_norm("BoxCox", lam, 0.0)
-        y = nrm.normalize(np.array([x]))
-        with warnings.catch_warnings():
-            warnings.simplefilter("ignore")
-            back = float(np.asarray(array_boxcox(y, lmbda=lam))[0])
-        col.evals += 1
-        if abs(back - x) > 1e-9 * max(1.0, abs(x)):
-            col.violation("boxcox-inverts:%s:relation" % lamclass("BoxCox", lam),
-                          "array_boxcox(BoxCox(lmbda=%r).normalize(%r) = %r, lmbda=%r) = %r" % (lam, x, float(y[0]), lam, back),
-                          {"section": "boxcox-relation", "lmbda": lam, "x": x})
-        seen.add((lam, x))
-    col.traces += len(seen)
-    col.nontrivial |= {("boxcox-relation",) + s for s in seen}
+        if c["norm"] in ("BoxCox", "BoxCoxShift") and c["dir"] == "normalize" and c["cls"] == "Valid":
+            groups.setdefault((c["norm"], tuple(c["lam"]), tuple(c["shift"])), []).append(_f(c["v"]))
+    exact = {}
+    for st in fix_states:
+        c = st["c"]
+        if c["norm"] in ("BoxCox", "BoxCoxShift"):
+            exact[(c["norm"], tuple(c["lam"]), tuple(c["shift"]))] = _f(c["x"])
+    model = gs.Gaussian(dim=1, var=1.0, len_scale=1.0)
+    for (name, lamq, tq), xs in sorted(groups.items()):
+        lam, t = lamq[0] / lamq[1], tq[0] / tq[1]
+        nrm = make_norm(name, lam, t)
+        x = np.array(sorted(xs))
+        y = nrm.normalize(x.copy())
+        x0 = exact.get((name, lamq, tq))
+        for sh in (0.0, 1.0, -0.5):
+            for entry in ("array_boxcox", "Field.transform"):
+                for data, want, tol, obs in ((y - sh, x + t, 1e-9, "relation"),
+                                            (np.array([0.0 - sh]), None if x0 is None else np.array([x0 + t]), 1e-12,
+                                             "reference-point")):
+                    if want is None:
+                        continue
+                    with warnings.catch_warnings():
+                        warnings.simplefilter("ignore")
+                        if entry == "array_boxcox":
+                            back = np.asarray(array_boxcox(data.copy(), lmbda=lam, shift=sh), dtype=float)
+                        else:
+                            fld = Field(model, mean=0.0)
+                            fld([np.arange(len(data), dtype=float)], field=data.copy(), post_process=False)
+                            back = np.asarray(fld.transform("boxcox", lmbda=lam, shift=sh, store=False), dtype=float)
+                    col.evals += len(data)
+                    ok = _relclose(back, want, tol)
+                    if not ok.all():
+                        i = int(np.flatnonzero(~ok)[0])
+                        col.violation("boxcox-inverts:%s:%s:%s" % (lamclass(name, lam), "shifted" if sh else "unshifted", obs),
+                                      "%s(%r, lmbda=%r, shift=%r) = %r, but %r.normalize(%r) = %r, so the inverse of the "
+                                      "shifted field is %r"
+                                      % (entry, float(data[i]), lam, sh, float(back[i]), nrm, float(want[i] - t),
+                                         float(data[i] + sh), float(want[i])), {"section": "boxcox-relation", "normalizer": name,
+                                                                               "lmbda": lam, "normalizer_shift": t, "shift": sh})
+        col.traces += 1
+        col.nontrivial.add(("boxcox-relation", name, lamq, tq))
 
 
 # ---------------------------------------------------------------------------
@@ -1411,7 +1525,10 @@ ASSUME_C18 = [
     "after every call every stored field the call was not asked to (re)bind is compared byte-wise with the snapshot taken "
     "when it was bound (it was checked against its documented term then); caller arrays are handed over as copies",
     "log-likelihood: relations between implementation outputs (data vs its valid entries, likelihood = exp, documented "
-    "constant for TLC's valid count, ML definition from the object's own normalize / derivative); the ML FIT is not covered",
+    "constant for TLC's valid count, ML definition from the object's own normalize / derivative); fit(): which parameters are "
+    "fitted / frozen is TLC's, frozen parameters keep their bits, a converged fit does not lower the log-likelihood of the start "
+    "parameters, BoxCoxShift with frozen shift = BoxCox on the shifted data; that the result IS the ML optimum is not covered "
+    "(fits that do not converge - the shift of BoxCoxShift is documented as hard to fit - are only counted)",
 ]
 ASSUME_C19 = [
     "NOT covered: the distribution laws (log-normal, uniform, arcsine, U-quadratic, Zinn-Harvey marginal) - statements about "
@@ -1453,6 +1570,9 @@ def _do_replay(pid, path):
         replay_fix(col, [{"c": rp["case"]}])
     elif sec == "llf":
         replay_llf(col, [{"c": rp["case"]}])
+    elif sec == "fit":
+        rp["case"]["skip"], rp["case"]["frozen"] = set(rp["case"]["skip"]), set(rp["case"]["frozen"])
+        replay_fit(col, [{"c": rp["case"]}])
     elif sec == "bounds":
         replay_bounds(col, [{"c": rp["case"]}])
     elif sec == "range":
@@ -1470,8 +1590,8 @@ def run(pid, tier, seed, replay=None):
     rep = Report(pid, tier, seed)
     rep.assumptions += ASSUME_C18 if pid == "C18" else ASSUME_C19
     thorough = tier == "thorough"
-    sections = ["NormExact", "Range", "Fix", "Llf"] if pid == "C18" else \
-        ["Discrete", "Wrap", "Force", "Bounds", "NormExact", "Range"]
+    sections = ["NormExact", "Range", "Fix", "Llf", "Fit"] if pid == "C18" else \
+        ["Discrete", "Wrap", "Force", "Bounds", "NormExact", "Range", "Fix"]
     t0 = time.time()
     with tlc.Scratch() as sc:
         jobs = pointwise_jobs(sc, tier, sections)
@@ -1486,7 +1606,7 @@ def run(pid, tier, seed, replay=None):
         for (what, tag), r in sorted(results.items()):
             tlc.must_pass(r, "%s %s" % (what, tag))
             spec = "Pointwise.%s" % tag if what == "pw" else "Pipeline.%s" % tag
-            if what == "pw" and tag in ("NormExact", "Range") and pid == "C19":
+            if what == "pw" and tag in ("NormExact", "Range", "Fix") and pid == "C19":
                 spec += "(shared with C18; here only the BoxCox pairs are used)"
             rep.add_tlc(spec, r)
             if r.error:
@@ -1500,6 +1620,7 @@ def run(pid, tier, seed, replay=None):
             replay_range(col, dumps["Range"], tier)
             replay_fix(col, dumps["Fix"])
             replay_llf(col, dumps["Llf"])
+            replay_fit(col, dumps["Fit"])
             aux_finite_difference(col)
         else:
             replay_discrete(col, dumps["Discrete"], tier)
@@ -1507,7 +1628,7 @@ def run(pid, tier, seed, replay=None):
             replay_force(col, dumps["Force"])
             replay_bounds(col, dumps["Bounds"])
             replay_exact(col, dumps["NormExact"], pid)
-            relation_boxcox(col, dumps["Range"])
+            relation_boxcox(col, dumps["Range"], dumps["Fix"])
         col.merge_into(rep)
         rep.extra["pointwise_cases"] = {s: len(d) for s, d in dumps.items()}
         print("Pointwise replays done at %.1fs" % (time.time() - t0))
